@@ -296,7 +296,7 @@ c19_probe_files(FILE *f, const char *scratch_dir)
 	for (int dk = 0; dk <= 4; ++dk)
 	for (unsigned fl = 0; fl < 8; ++fl) {
 		(void)mk_object(K_REG, 0, false, false);
-		struct stat old_st, old_t;
+		struct stat old_st;
 		memset(&old_st, 0, sizeof(old_st));
 		switch (dk) {
 		case 1: { int fd = open("o.xz", O_WRONLY | O_CREAT | O_EXCL, 0600); if (fd < 0 || write(fd, "old", 3) != 3) abort(); close(fd); break; }
@@ -308,8 +308,6 @@ c19_probe_files(FILE *f, const char *scratch_dir)
 		}
 		if (dk != 0 && lstat("o.xz", &old_st))
 			abort();
-		if (dk == 3 && lstat("t", &old_t))
-			abort();
 		c19_set_suffix(NULL);
 		int stage = -1;
 		char *dn = NULL;
@@ -320,18 +318,37 @@ c19_probe_files(FILE *f, const char *scratch_dir)
 		struct stat now;
 		int untouched = 1;
 		if (dk != 0) {
-			untouched = lstat("o.xz", &now) == 0 && now.st_ino == old_st.st_ino && now.st_dev == old_st.st_dev
-					&& now.st_size == old_st.st_size && now.st_mtime == old_st.st_mtime;
+			// identity by content / link text (a freed inode number may be reused by the new file)
+			char buf[64];
+			ssize_t n;
+			untouched = lstat("o.xz", &now) == 0 && (now.st_mode & S_IFMT) == (old_st.st_mode & S_IFMT);
+			if (untouched && dk == 1) {
+				int fd = open("o.xz", O_RDONLY);
+				n = fd < 0 ? -1 : read(fd, buf, sizeof(buf));
+				if (fd >= 0) close(fd);
+				untouched = n == 3 && memcmp(buf, "old", 3) == 0;
+			}
+			if (untouched && (dk == 3 || dk == 4)) {
+				n = readlink("o.xz", buf, sizeof(buf));
+				untouched = dk == 3 ? (n == 1 && buf[0] == 't') : (n == 11 && memcmp(buf, "nonexistent", 11) == 0);
+			}
 			if (dk == 3) {
-				// the file the symlink points to must never be written through
-				struct stat t;
-				if (lstat("t", &t) || t.st_ino != old_t.st_ino || t.st_size != 3)
+				// the file the symlink points to must never be written through or removed
+				int fd = open("t", O_RDONLY | O_NOFOLLOW);
+				n = fd < 0 ? -1 : read(fd, buf, sizeof(buf));
+				if (fd >= 0) close(fd);
+				if (!(n == 3 && memcmp(buf, "old", 3) == 0))
 					untouched = 2;
 			}
 		}
 		int newreg = 0;
-		if (lstat("o.xz", &now) == 0 && S_ISREG(now.st_mode) && (dk == 0 || now.st_ino != old_st.st_ino))
-			newreg = 1;
+		if (lstat("o.xz", &now) == 0 && S_ISREG(now.st_mode)) {
+			char buf[64];
+			int fd = open("o.xz", O_RDONLY | O_NOFOLLOW);
+			ssize_t n = fd < 0 ? -1 : read(fd, buf, sizeof(buf));
+			if (fd >= 0) close(fd);
+			newreg = n == 3 && memcmp(buf, "new", 3) == 0;
+		}
 		int src_removed = lstat("o", &now) != 0;
 		rm_all();
 		fprintf(f, "%s\n  [%d,%u,%u,%u,%d,%d,%d,%d,%d]", first ? "" : ",", dk, (fl >> 2) & 1, (fl >> 1) & 1, fl & 1,
